@@ -602,3 +602,252 @@ def switch_cases(node: ast.If, fn_node: ast.AST | None = None) -> tuple[str, lis
         subject = r[0]
         out.append((r[1], body))
     return subject, out, default
+
+
+# ---------------------------------------------------------------------------------------------------------------------
+# integer polynomials over named symbols (normal form of small arithmetic expressions)
+def poly_eval(ff, e: ast.expr, at, sym, depth: int = 0):
+    """Normal form of an integer arithmetic expression as {monomial: coefficient}, monomial = sorted tuple of symbol
+    names (with repetition).  ``sym(expr) -> name | None`` names the leaves (tested before a local is resolved through its
+    single reaching definition).  Supports + - * unary minus, integer constants, and int(...) of such.  None when the
+    expression is not of that form."""
+    if depth > 12:
+        return None
+    s = sym(e)
+    if s is not None:
+        return {(s,): 1}
+    if isinstance(e, ast.Constant) and isinstance(e.value, int) and not isinstance(e.value, bool):
+        return {(): e.value} if e.value else {}
+    if isinstance(e, ast.Name):
+        defs = ff.rd.reaching(e.id, at)
+        if len(defs) == 1 and defs[0].kind == "assign" and not defs[0].index:
+            return poly_eval(ff, defs[0].value, defs[0].node, sym, depth + 1)
+        return None
+    if isinstance(e, ast.UnaryOp) and isinstance(e.op, (ast.USub, ast.UAdd)):
+        p = poly_eval(ff, e.operand, at, sym, depth + 1)
+        if p is None:
+            return None
+        return {m: -c for m, c in p.items()} if isinstance(e.op, ast.USub) else p
+    if isinstance(e, ast.Call) and isinstance(e.func, ast.Name) and e.func.id == "int" and len(e.args) == 1 and not e.keywords:
+        return poly_eval(ff, e.args[0], at, sym, depth + 1)
+    if isinstance(e, ast.BinOp) and isinstance(e.op, (ast.Add, ast.Sub, ast.Mult)):
+        a = poly_eval(ff, e.left, at, sym, depth + 1)
+        b = poly_eval(ff, e.right, at, sym, depth + 1)
+        if a is None or b is None:
+            return None
+        out: dict = {}
+        if isinstance(e.op, ast.Mult):
+            for m1, c1 in a.items():
+                for m2, c2 in b.items():
+                    m = tuple(sorted(m1 + m2))
+                    out[m] = out.get(m, 0) + c1 * c2
+        else:
+            sign = 1 if isinstance(e.op, ast.Add) else -1
+            out = dict(a)
+            for m, c in b.items():
+                out[m] = out.get(m, 0) + sign * c
+        return {m: c for m, c in out.items() if c}
+    return None
+
+
+def poly_subst(p: dict, name: str, value: int) -> dict:
+    out: dict = {}
+    for m, c in p.items():
+        k = sum(1 for x in m if x == name)
+        m2 = tuple(x for x in m if x != name)
+        out[m2] = out.get(m2, 0) + c * (value ** k)
+    return {m: c for m, c in out.items() if c}
+
+
+def poly_str(p: dict) -> str:
+    if not p:
+        return "0"
+    return " + ".join(f"{c}*{'*'.join(m)}" if m else str(c) for m, c in sorted(p.items()))
+
+
+# ---------------------------------------------------------------------------------------------------------------------
+# mappings keyed by the stringified position of a list element ("0", "1", ..., "10", ...)
+def _is_str_of_index(key: ast.expr, scope: ast.AST) -> bool:
+    """``str(i)`` / ``f"{i}"`` where ``i`` is the counter of an enumerate / range loop or comprehension in ``scope``"""
+    name = None
+    if isinstance(key, ast.Call) and isinstance(key.func, ast.Name) and key.func.id == "str" and len(key.args) == 1 and isinstance(key.args[0], ast.Name):
+        name = key.args[0].id
+    elif isinstance(key, ast.JoinedStr) and len(key.values) == 1 and isinstance(key.values[0], ast.FormattedValue) and isinstance(key.values[0].value, ast.Name):
+        name = key.values[0].value.id
+    if name is None:
+        return False
+    for n in ast.walk(scope):
+        tgt = it = None
+        if isinstance(n, (ast.For, ast.comprehension)):
+            tgt, it = n.target, n.iter
+        if tgt is None or not isinstance(it, ast.Call):
+            continue
+        f = (dotted(it.func) or "").split(".")[-1]
+        if f == "enumerate" and isinstance(tgt, ast.Tuple) and tgt.elts and isinstance(tgt.elts[0], ast.Name) and tgt.elts[0].id == name:
+            return True
+        if f == "range" and isinstance(tgt, ast.Name) and tgt.id == name:
+            return True
+    return False
+
+
+def index_key_fields(pm) -> dict[str, tuple]:
+    """attribute names of mappings whose keys are stringified list positions -> (function, writer node)"""
+    fields: dict[str, tuple] = {}
+    for fn in pm.functions.values():
+        for n in walk_no_nested(fn.node):
+            if not isinstance(n, ast.Assign):
+                continue
+            for t in n.targets:
+                if isinstance(t, ast.Attribute) and isinstance(n.value, ast.DictComp) and _is_str_of_index(n.value.key, n.value):
+                    fields.setdefault(t.attr, (fn, n))
+                if isinstance(t, ast.Subscript) and isinstance(t.value, ast.Attribute) and _is_str_of_index(t.slice, fn.node):
+                    fields.setdefault(t.value.attr, (fn, n))
+    return fields
+
+
+def index_key_order(chk, rule: str, want_fields: tuple[str, ...] = ()) -> None:
+    """<rule>: a mapping keyed by "0", "1", ..., "10", ... pairs its entries with the positions of a list; whoever walks
+    it must do so in insertion order or in NUMERIC key order - ``sorted()`` without an integer key puts "10" before "2", so
+    from the eleventh element on every entry is attached to the wrong list position."""
+    pm = chk.pm
+    fields = index_key_fields(pm)
+    for f in want_fields:
+        chk.require(f in fields, f"{rule}: no mapping attribute '{f}' keyed by the stringified list position found (anchor vanished)")
+    if want_fields:
+        fields = {k: v for k, v in fields.items() if k in want_fields}
+    n = 0
+    for fn in pm.functions.values():
+        ff = None
+        for c in walk_no_nested(fn.node):
+            walks = None
+            if isinstance(c, ast.Call) and isinstance(c.func, ast.Name) and c.func.id in ("sorted", "reversed") and c.args:
+                walks, how = c.args[0], c.func.id
+            elif isinstance(c, (ast.For, ast.comprehension)):
+                walks, how = c.iter, "iter"
+            if walks is None:
+                continue
+            base = walks
+            if isinstance(base, ast.Call) and isinstance(base.func, ast.Attribute) and base.func.attr in ("keys", "values", "items") and not base.args:
+                base = base.func.value
+            if isinstance(base, ast.Call) and isinstance(base.func, ast.Name) and base.func.id in ("list", "tuple") and base.args:
+                base = base.args[0]
+            ff = ff or FuncFacts.of(fn)
+            hit = None
+            if isinstance(base, ast.Attribute) and base.attr in fields:
+                hit = base.attr
+            elif isinstance(base, ast.Name):
+                for p in ff.paths(base, spine_only=True):
+                    if p.ops and p.ops[-1].kind == "attr" and p.ops[-1].name in fields:
+                        hit = p.ops[-1].name
+                    elif not p.ops and p.atom.kind == "selfattr" and p.atom.name.split(".")[-1] in fields:
+                        hit = p.atom.name.split(".")[-1]
+            if hit is None:
+                continue
+            if how == "iter" and isinstance(walks, ast.Call) and isinstance(walks.func, ast.Name) and walks.func.id in ("sorted", "reversed"):
+                continue  # judged at the sorted() call itself
+            n += 1
+            ok = True
+            if how == "reversed":
+                ok = False
+            elif how == "sorted":
+                key = call_kwargs(c).get("key")
+                ok = key is not None and any(isinstance(x, ast.Name) and x.id in ("int", "float") for x in ast.walk(key))
+                if any(k.arg == "reverse" for k in c.keywords):
+                    ok = False
+            chk.check(ok, rule, fn, c if isinstance(c, ast.Call) else walks, construct=f"{fn.qualname.split('.')[-2] if '.' in fn.qualname else fn.qualname}: entries of .{hit} walked in list order",
+                      why=f".{hit} is keyed by the stringified position of a list element (written in {fields[hit][0].qualname}); {how}() without an integer key orders "
+                          "'10' before '2': from the eleventh element on, entries are paired with the wrong list position")
+    chk.require(n >= 1 or not want_fields, f"{rule}: no walk over a position-keyed mapping found (anchor vanished)")
+
+
+# ---------------------------------------------------------------------------------------------------------------------
+# self.attrs is descriptive metadata: DataContainer.set_attrs re-encodes it IN PLACE at the end of every fit
+def attrs_encoded_in_place(pm) -> bool:
+    """premise: DataContainer.set_attrs -> _validate_attrs assigns into the very dict it is given (bool -> 'True'/'False',
+    None -> 'None') - so a model's ``self.attrs`` holds strings once a fit has completed"""
+    dc = pm.classes.get("xeofs.data_container.data_container.DataContainer")
+    if dc is None:
+        return False
+    sa, va = dc.methods.get("set_attrs"), dc.methods.get("_validate_attrs")
+    if sa is None or va is None:
+        return False
+    params = [p for p in va.params if p != "self"]
+    if not params:
+        return False
+    writes = any(isinstance(n, ast.Assign) and any(isinstance(t, ast.Subscript) and isinstance(t.value, ast.Name) and t.value.id == params[0] for t in n.targets)
+                 for n in walk_no_nested(va.node))
+    hands_on = any(isinstance(c.func, ast.Attribute) and c.func.attr == "_validate_attrs" and c.args and isinstance(c.args[0], ast.Name) and c.args[0].id in sa.params
+                   for c in calls_in(sa))
+    return writes and hands_on
+
+
+def _flag_like_params(pm, cls) -> set[str]:
+    """constructor parameters along the MRO whose default is a bool or None (the values the encoding turns into strings)"""
+    out: set[str] = set()
+    for c in cls.mro:
+        init = c.methods.get("__init__")
+        if init is None:
+            continue
+        a = init.node.args
+        pos = a.posonlyargs + a.args
+        pairs = list(zip(pos[len(pos) - len(a.defaults):], a.defaults)) + [(x, d) for x, d in zip(a.kwonlyargs, a.kw_defaults) if d is not None]
+        for x, d in pairs:
+            ann = norm(x.annotation) if x.annotation is not None else ""
+            if (isinstance(d, ast.Constant) and (isinstance(d.value, bool) or d.value is None)) or "bool" in ann or "None" in ann:
+                out.add(x.arg)
+    return out
+
+
+def attrs_reads(chk, rule: str) -> None:
+    """<rule>: nothing that steers a computation is read from ``self.attrs``.  The dict is handed to
+    DataContainer.set_attrs at the end of each fit, which replaces booleans and None by strings in place: a flag read from
+    it is right on the first fit and the truthy string 'False' (or 'None') on every later one."""
+    pm = chk.pm
+    if not attrs_encoded_in_place(pm):
+        chk.ok(rule, "xeofs", None, construct="<self.attrs is not re-encoded in place: reads are harmless>", nontrivial=False)
+        return
+    n = 0
+    seen = set()
+    for cls in pm.concrete_models():
+        flags = _flag_like_params(pm, cls)
+        for c in cls.mro:
+            for fn in c.methods.values():
+                if fn.qualname in seen:
+                    continue
+                seen.add(fn.qualname)
+                par = None
+                for node in walk_no_nested(fn.node):
+                    if not (is_self_attr(node, "attrs") and isinstance(node.ctx, ast.Load)):
+                        continue
+                    par = par or parent_map(fn.node)
+                    up = par.get(id(node))
+                    # writes and the metadata sink
+                    if isinstance(up, ast.Subscript) and isinstance(up.ctx, (ast.Store, ast.Del)):
+                        continue
+                    if isinstance(up, ast.Attribute) and up.attr in ("update", "setdefault", "pop", "clear") and isinstance(par.get(id(up)), ast.Call):
+                        continue
+                    if isinstance(up, ast.Call) and isinstance(up.func, ast.Attribute) and up.func.attr == "set_attrs":
+                        continue
+                    if isinstance(up, ast.keyword) and isinstance(par.get(id(up)), ast.Call) and norm(par[id(up)].func).endswith("set_attrs"):
+                        continue
+                    # a read: which keys?
+                    keys: set[str] | None = None
+                    if isinstance(up, ast.Subscript):
+                        k = const_str(up.slice)
+                        if k is not None:
+                            keys = {k}
+                        elif isinstance(up.slice, ast.Name):
+                            # key bound by a loop / comprehension over a literal display
+                            for m in ast.walk(fn.node):
+                                if isinstance(m, (ast.For, ast.comprehension)) and isinstance(m.target, ast.Name) and m.target.id == up.slice.id \
+                                        and isinstance(m.iter, (ast.Tuple, ast.List, ast.Set)) and all(const_str(x) is not None for x in m.iter.elts):
+                                    keys = {const_str(x) for x in m.iter.elts}
+                    elif isinstance(up, ast.Attribute) and up.attr == "get" and isinstance(par.get(id(up)), ast.Call) and par[id(up)].args:
+                        k = const_str(par[id(up)].args[0])
+                        keys = {k} if k is not None else None
+                    n += 1
+                    risky = sorted(keys & flags) if keys is not None else sorted(flags)
+                    chk.check(not risky, rule, fn, up if up is not None else node, construct=f"{fn.qualname}: read of self.attrs{sorted(keys) if keys else ''}",
+                              why=f"{norm(up)[:80]} reads {risky} from self.attrs; DataContainer.set_attrs replaces booleans / None in that dict by strings at the end of every fit, "
+                                  "so from the second fit on the value is the (truthy) string - read configuration from self._params / get_params()")
+    chk.ok(rule, "xeofs", None, construct=f"<reads of self.attrs examined: {n}>", nontrivial=False)
